@@ -1,15 +1,18 @@
 #!/bin/bash
 # tools/recheck_all.sh [pattern] : regression matrix - every kept seeded change against its target check (quick tier),
-# one at a time, applied to /repo and undone straight afterwards. Writes /verif/seeded/recheck.txt (id check rc class).
+# one at a time, applied to /repo and undone straight afterwards. Appends to /verif/seeded/recheck.txt (id check rc class);
+# ids already recorded there as detected (rc=1) are skipped, so an interrupted run can be resumed. FRESH=1 starts over.
 cd /verif || exit 2
 PAT="${1:-^C[0-9]+[A-Z]$}"
-out=/verif/seeded/recheck.txt; : > $out.tmp
+out=/verif/seeded/recheck.txt
+[ -n "${FRESH:-}" ] && : > $out
+touch $out
 for sid in $(ls seeded | grep -E "$PAT"); do
   [ -f seeded/$sid/patch.diff ] || continue
   id=${sid:0:3}
+  grep -q "^$sid $id rc=1 " $out && continue
   line=$(tools/checks_on_mutant.sh $sid $id 2>&1 | tail -1)
-  echo "$line" | cut -c1-240 >> $out.tmp
-  git -C /repo diff --quiet || { echo "REPO DIRTY after $sid" >> $out.tmp; git -C /repo checkout -- .; }
+  echo "$line" | cut -c1-240 >> $out
+  git -C /repo diff --quiet || { echo "REPO DIRTY after $sid" >> $out; git -C /repo checkout -- .; }
 done
-mv $out.tmp $out
-grep -c "rc=1" $out; grep -v "rc=1" $out
+echo "detected: $(grep -c ' rc=1 ' $out)"; grep -v ' rc=1 ' $out
